@@ -463,12 +463,172 @@ package trie
 //@ nobody
 //@ modifies nothing
 
-// VerifyProof: every node it decodes is exactly the byte string the proof database returned for the hash wanted at that step, and it is
-// decoded under that hash (that the hash wanted at step 0 is the root hash is not stated: engine_requests/C13.md #7); a missing node ends the verification with an error.
+// VerifyProof: every node it decodes is exactly the byte string the proof database returned for the hash wanted at that step — the root hash
+// at step 0 — and it is decoded under that hash; a missing node ends the verification with an error.
 //@ ghost var c13Fetched: Slice
+// true until the first lookup has been made
+//@ ghost var c13First: bool
 //@ func VerifyProof props C13
 //@ ghost after call (DatabaseReader).Get: c13Fetched := ret0
-//@ modifies all, c13Fetched
+//@ ghost at entry: c13First := true
+//@ ghost after call (DatabaseReader).Get: c13First := false
+//@ modifies all, c13Fetched, c13First
+//@ loop i invariant [starts-at-root] c13First ==> (forall k: int :: 0 <= k && k < 32 ==> wantHash[k] == rootHash[k])
+//@ assert before call (DatabaseReader).Get: [first-lookup-is-the-root] c13First ==> (forall k: int :: 0 <= k && k < 32 ==> a0[k] == rootHash[k])
 //@ assert before call (DatabaseReader).Get: [looked-up-under-wanted-hash] len(a0) == 32 && (forall k: int :: 0 <= k && k < 32 ==> a0[k] == wantHash[k])
 //@ assert before call decodeNode: [decodes-what-was-fetched] a1 == c13Fetched && !isnil(a1)
 //@ assert before call decodeNode: [decoded-under-wanted-hash] len(a0) == 32 && (forall k: int :: 0 <= k && k < 32 ==> a0[k] == wantHash[k])
+
+// ---------------------------------------------------------------------------------------------------------------------
+// GROUP 4 — the node database's in-memory codec (database.go): "committing and reopening loses nothing" for the dirty layer.
+// simplifyNode (collapsed node → rawShortNode / rawFullNode, caches stripped) and expandNode (back to shortNode / fullNode) are an inverse pair
+// over EVERY slot of a full node — the 16 children and the value slot — and over the key (stored compact, expanded to hex). The relations are one
+// level deep; each recursive invocation (embedded child nodes) satisfies the same contract, so the clause holds at every depth of a node,
+// although the top-level postcondition speaks about the first level only (a recursive heap predicate cannot be exported, see GROUP 2).
+
+// child level: y is what comes out for child x. Nothing stays nothing; values and hash references are handed through IDENTICALLY; a node is
+// converted to the node of the corresponding kind.
+//@ spec func c13SimpChild(y: node, x: node) bool =
+//@     (x == nil <==> y == nil) && (hastype(x, valueNode) || hastype(x, hashNode) || hastype(x, rawNode) ==> y == x) &&
+//@     (hastype(x, *fullNode) ==> hastype(y, rawFullNode)) && (hastype(x, *shortNode) ==> hastype(y, *rawShortNode))
+// (an embedded node is rebuilt WITHOUT a cached hash: only the node stored under a hash of its own gets that hash)
+//@ spec func c13ExpChild(y: node, x: node) bool =
+//@     (x == nil <==> y == nil) && (hastype(x, valueNode) || hastype(x, hashNode) ==> y == x) &&
+//@     (hastype(x, rawFullNode) ==> hastype(y, *fullNode) && isnil(unbox(y, *fullNode).flags.hash)) &&
+//@     (hastype(x, *rawShortNode) ==> hastype(y, *shortNode) && isnil(unbox(y, *shortNode).flags.hash))
+// node level
+//@ spec func c13SimpOf(r: node, n: node) bool =
+//@     (hastype(n, valueNode) || hastype(n, hashNode) || hastype(n, rawNode) ==> r == n) &&
+//@     (hastype(n, *shortNode) ==> hastype(r, *rawShortNode) && unbox(r, *rawShortNode) != nil && unbox(r, *rawShortNode).Key == unbox(n, *shortNode).Key &&
+//@         c13SimpChild(unbox(r, *rawShortNode).Val, unbox(n, *shortNode).Val)) &&
+//@     (hastype(n, *fullNode) ==> hastype(r, rawFullNode) &&
+//@         (forall k: int :: 0 <= k && k < 17 ==> c13SimpChild(unbox(r, rawFullNode)[k], unbox(n, *fullNode).Children[k])))
+// the expanded key is the hex form of the stored compact key (compactToHex's verified postcondition; the empty string stays empty)
+//@ spec func c13ExpKey(k: []byte, c: []byte) bool = (len(c) == 0 ==> len(k) == 0) && (len(c) >= 1 ==> c13IsHexOfCompact(k, c))
+//@ spec func c13ExpOf(e: node, r: node) bool =
+//@     (hastype(r, valueNode) || hastype(r, hashNode) ==> e == r) &&
+//@     (hastype(r, *rawShortNode) ==> hastype(e, *shortNode) && unbox(e, *shortNode) != nil && c13ExpKey(unbox(e, *shortNode).Key, unbox(r, *rawShortNode).Key) &&
+//@         c13ExpChild(unbox(e, *shortNode).Val, unbox(r, *rawShortNode).Val)) &&
+//@     (hastype(r, rawFullNode) ==> hastype(e, *fullNode) && unbox(e, *fullNode) != nil &&
+//@         (forall k: int :: 0 <= k && k < 17 ==> c13ExpChild(unbox(e, *fullNode).Children[k], unbox(r, rawFullNode)[k])))
+// the cache flags of a node rebuilt for hash h: h is its cached hash, it is clean, generation as given
+//@ spec func c13RebuiltFlags(e: node, h: hashNode, g: int) bool =
+//@     (hastype(e, *shortNode) ==> unbox(e, *shortNode).flags.hash == h && unbox(e, *shortNode).flags.gen == g && !unbox(e, *shortNode).flags.dirty) &&
+//@     (hastype(e, *fullNode) ==> unbox(e, *fullNode).flags.hash == h && unbox(e, *fullNode).flags.gen == g && !unbox(e, *fullNode).flags.dirty)
+
+//@ func simplifyNode props C13
+//@ modifies nothing
+//@ let n0 = n
+//@ loop i invariant [index] 0 <= i && i <= 17
+//@ loop i invariant [frame-arrays] forall a: *[17]node :: oldobj(a) ==> elems(a) == old(elems(a))
+//@ loop i invariant [source-unchanged] unbox(n0, *fullNode).Children == old(unbox(n0, *fullNode).Children)
+//@ loop i invariant [simplified-so-far] forall k: int :: 0 <= k && k < i ==> c13SimpChild(node[k], unbox(n0, *fullNode).Children[k])
+//@ loop i invariant [rest-as-copied] forall k: int :: i <= k && k < 17 ==> node[k] == unbox(n0, *fullNode).Children[k]
+// (normal return = the node is of a known kind: everything else, nil included, ends in the `unknown node type` panic)
+//@ ensures [known-kind] n != nil && result != nil
+//@ ensures [leaf-handed-through] hastype(n, valueNode) || hastype(n, hashNode) || hastype(n, rawNode) ==> result == n
+//@ ensures [short] hastype(n, *shortNode) ==> hastype(result, *rawShortNode) && fresh(unbox(result, *rawShortNode)) && unbox(result, *rawShortNode).Key == unbox(n, *shortNode).Key &&
+//@     c13SimpChild(unbox(result, *rawShortNode).Val, unbox(n, *shortNode).Val)
+//@ ensures [full-all-17-slots] hastype(n, *fullNode) ==> hastype(result, rawFullNode) &&
+//@     (forall k: int :: 0 <= k && k < 17 ==> c13SimpChild(unbox(result, rawFullNode)[k], unbox(n, *fullNode).Children[k]))
+//@ ensures [simplified] c13SimpOf(result, n)
+
+//@ func expandNode props C13
+//@ modifies nothing
+//@ let r0 = unbox(n, rawFullNode)
+//@ loop i invariant [index] 0 <= i && i <= 17
+//@ loop i invariant [frame-arrays] forall a: *[17]node :: oldobj(a) ==> elems(a) == old(elems(a))
+//@ loop i invariant [node-under-construction] node != nil && node >= old(alloc()) && node.flags.hash == hash && node.flags.gen == cachegen && !node.flags.dirty
+//@ loop i invariant [raw-unchanged] forall k: int :: 0 <= k && k < 17 ==> n[k] == r0[k]
+//@ loop i invariant [expanded-so-far] forall k: int :: 0 <= k && k < i ==> c13ExpChild(node.Children[k], r0[k])
+//@ loop i invariant [rest-empty] forall k: int :: i <= k && k < 17 ==> node.Children[k] == nil
+//@ ensures [known-kind] n != nil && result != nil
+//@ ensures [leaf-handed-through] hastype(n, valueNode) || hastype(n, hashNode) ==> result == n
+//@ ensures [short] hastype(n, *rawShortNode) ==> hastype(result, *shortNode) && fresh(unbox(result, *shortNode)) &&
+//@     c13ExpChild(unbox(result, *shortNode).Val, unbox(n, *rawShortNode).Val)
+//@ ensures [short-key-expanded] hastype(n, *rawShortNode) ==> c13ExpKey(unbox(result, *shortNode).Key, unbox(n, *rawShortNode).Key)
+//@ ensures [full-all-17-slots] hastype(n, rawFullNode) ==> hastype(result, *fullNode) && fresh(unbox(result, *fullNode)) &&
+//@     (forall k: int :: 0 <= k && k < 17 ==> c13ExpChild(unbox(result, *fullNode).Children[k], unbox(n, rawFullNode)[k]))
+//@ ensures [rebuilt-flags] c13RebuiltFlags(result, hash, cachegen)
+//@ ensures [expanded] c13ExpOf(result, n)
+
+// [round-trip-shape]: what expandNode rebuilds from what simplifyNode stored has the shape of the original, slot by slot over ALL 17 slots of a
+// full node: an empty slot stays empty, a value (slot 16 included) or hash reference is the identical value, an embedded node comes back as a
+// node of the same kind; a short node gets the hex expansion of its (compact) key and the same child. Lemma over the two verified postconditions.
+//@ spec func c13ShapeChild(y: node, x: node) bool =
+//@     (x == nil <==> y == nil) && (hastype(x, valueNode) || hastype(x, hashNode) ==> y == x) &&
+//@     (hastype(x, *fullNode) ==> hastype(y, *fullNode)) && (hastype(x, *shortNode) ==> hastype(y, *shortNode))
+//@ lemma [C13.round-trip-shape] forall n: node, r: node, e: node :: c13SimpOf(r, n) && c13ExpOf(e, r) ==>
+//@     (hastype(n, valueNode) || hastype(n, hashNode) ==> e == n) &&
+//@     (hastype(n, *shortNode) ==> hastype(e, *shortNode) && c13ExpKey(unbox(e, *shortNode).Key, unbox(n, *shortNode).Key) &&
+//@         c13ShapeChild(unbox(e, *shortNode).Val, unbox(n, *shortNode).Val)) &&
+//@     (hastype(n, *fullNode) ==> hastype(e, *fullNode) &&
+//@         (forall k: int :: 0 <= k && k < 17 ==> c13ShapeChild(unbox(e, *fullNode).Children[k], unbox(n, *fullNode).Children[k])))
+
+// The dirty layer of the node database: what is stored under a hash is the simplification of the node handed in, entries are never rewritten,
+// and the node handed back for a hash is the expansion of the stored entry, rebuilt with that hash as its cached hash.
+//@ effectfree (*sync.RWMutex).RLock (*sync.RWMutex).RUnlock (*sync.RWMutex).Lock (*sync.RWMutex).Unlock
+// childs() only builds a list of hashes (local slice): ASSUMED frame, body (map range + recursive gatherChildren through a pointer to the local) not verified
+//@ func (*cachedNode).childs props C13
+//@ nobody
+//@ modifies nothing
+//@ func mustDecodeNode props C13
+//@ nobody
+//@ modifies nothing
+
+//@ func (*Database).insert props C13
+//@ requires [nonnil] db != nil && db.nodes != nil
+//@ let present = in(hash, db.nodes)
+//@ ensures [present-untouched] present ==> db.nodes[hash] == old(db.nodes[hash]) && mapdom(db.nodes) == old(mapdom(db.nodes))
+//@ ensures [stored-simplified] !present ==> in(hash, db.nodes) && db.nodes[hash] != nil && fresh(db.nodes[hash]) && c13SimpOf(db.nodes[hash].node, node)
+//@ ensures [entries-never-rewritten] forall c: *cachedNode :: old(allocated(c)) ==> c.node == old(c.node)
+//@ ensures [other-entries-kept] forall h: common.Hash :: h != hash ==> db.nodes[h] == old(db.nodes[h]) && (in(h, db.nodes) <==> old(in(h, db.nodes)))
+
+//@ func (*cachedNode).obj props C13
+//@ requires [nonnil] n != nil
+//@ modifies nothing
+//@ ensures [expands-what-is-cached] !hastype(n.node, rawNode) ==> c13ExpOf(result, n.node)
+//@ ensures [rebuilt-under-its-hash] !hastype(n.node, rawNode) && (hastype(result, *shortNode) || hastype(result, *fullNode)) ==>
+//@     (hastype(result, *shortNode) ==> len(unbox(result, *shortNode).flags.hash) == 32 && (forall k: int :: 0 <= k && k < 32 ==> unbox(result, *shortNode).flags.hash[k] == hash[k])) &&
+//@     (hastype(result, *fullNode) ==> len(unbox(result, *fullNode).flags.hash) == 32 && (forall k: int :: 0 <= k && k < 32 ==> unbox(result, *fullNode).flags.hash[k] == hash[k]))
+
+//@ func (*Database).node props C13
+//@ requires [nonnil] db != nil && db.nodes != nil
+//@ modifies nothing
+//@ ensures [hands-back-expansion-of-entry] db.nodes[hash] != nil && !hastype(db.nodes[hash].node, rawNode) ==> c13ExpOf(result, db.nodes[hash].node)
+
+// ---------------------------------------------------------------------------------------------------------------------
+// Lookups rewrite the path too (a resolved hash reference is replaced by the loaded node in COPIES of the nodes above it): tryGet keeps the
+// canonical form. What comes back in place of origNode is a node of the same kind (the resolved node in place of a hash reference: a full node
+// exactly for a branchy reference), canonical over the members; nothing existing is written.
+//@ spec func c13SameKind(y: node, x: node) bool =
+//@     (x == nil <==> y == nil) && (hastype(x, valueNode) <==> hastype(y, valueNode)) && (hastype(x, *shortNode) <==> hastype(y, *shortNode)) &&
+//@     (hastype(x, *fullNode) <==> hastype(y, *fullNode)) && (hastype(x, hashNode) <==> hastype(y, hashNode))
+//@ func (*Trie).tryGet props C13
+//@ opt per-return
+//@ requires [nonnil] t != nil
+//@ requires [inv] c13Inv()
+//@ requires [node] origNode == nil || c13Canon(origNode)
+//@ modifies c13S, c13F
+//@ ghost after call (*Trie).tryGet: c13S := c13RegS(ret1, ret3 == nil)
+//@ ghost after call (*Trie).tryGet: c13F := c13RegF(ret1, ret3 == nil)
+//@ ensures [inv-short-members] c13InvS()
+//@ ensures [inv-full-members] c13InvF()
+//@ ensures [inv-buffers] c13InvP()
+//@ ensures [members-kept] c13Kept(old(c13S), old(c13F), old(c13P))
+//@ ensures [only-new-members] c13OnlyNew(old(c13S), old(c13F), old(c13P), old(alloc()))
+//@ ensures [canon] err == nil ==> newnode == nil || c13Canon(newnode)
+//@ ensures [same-kind] err == nil && !hastype(origNode, hashNode) ==> c13SameKind(newnode, origNode)
+//@ ensures [resolved-kind] err == nil && hastype(origNode, hashNode) ==> (hastype(newnode, *shortNode) || hastype(newnode, *fullNode)) && (c13Branchy(unbox(origNode, hashNode)) <==> hastype(newnode, *fullNode))
+//@ ensures [origin] err == nil ==> newnode == nil || c13SameNode(newnode, origNode) || c13Ref(newnode) || c13NewNode(newnode, old(alloc()))
+//@ ensures [unresolved-unchanged] err == nil && !didResolve && (hastype(origNode, *shortNode) || hastype(origNode, *fullNode)) ==> c13SameNode(newnode, origNode)
+
+//@ func (*Trie).TryGet props C13
+//@ requires [nonnil] t != nil
+//@ requires [inv] c13Inv()
+//@ requires [root] c13Root(t.root)
+//@ modifies t.root, c13S, c13F
+//@ ensures [inv] c13Inv()
+//@ ensures [root] c13Root(t.root)
+//@ ensures [members-kept] c13Kept(old(c13S), old(c13F), old(c13P))
+//@ ensures [error-keeps-root] result1 != nil ==> t.root == old(t.root)
